@@ -61,7 +61,15 @@ namespace glm
 		{
 			GLM_STATIC_ASSERT(std::numeric_limits<genType>::is_iec559 || GLM_CONFIG_UNRESTRICTED_FLOAT, "'round' only accept floating-point inputs");
 
-			return x < static_cast<genType>(0) ? static_cast<genType>(int(x - static_cast<genType>(0.5))) : static_cast<genType>(int(x + static_cast<genType>(0.5)));
+			// Same value as std::round for every input: no conversion through int (undefined for |x| >= 2^31) and no
+			// inexact x +/- 0.5 (0.49999997f + 0.5f rounds up to 1). x - t is exact because |x - t| < 1.
+			genType const t = x < static_cast<genType>(0) ? -std::floor(-x) : std::floor(x);
+			genType const d = x - t;
+			if(d >= static_cast<genType>(0.5))
+				return t + static_cast<genType>(1);
+			if(d <= static_cast<genType>(-0.5))
+				return t - static_cast<genType>(1);
+			return t;
 		}
 #	endif
 
